@@ -481,6 +481,17 @@ func (t *fnTrans) backEdge(from, to *ssa.BasicBlock) {
 		}
 	}
 	t.loopInvariants(li, "inv.preserve", vals, from.Instrs[len(from.Instrs)-1].Pos())
+	if t.contract != nil {
+		saveBlk := t.curBlock
+		t.curBlock = from
+		for k, sl := range t.contract.loopEnsures[li.ord] {
+			e := t.selfCtx()
+			if term, ok := t.evalBool(e, sl); ok {
+				t.oblige("inv.iteration", fmt.Sprintf("loop%d:ensures%d@b%d", li.ord, k+1, from.Index), from.Instrs[len(from.Instrs)-1].Pos(), term, "at the end of every iteration: "+sl.text)
+			}
+		}
+		t.curBlock = saveBlk
+	}
 	t.ownBackEdgeHook(li)
 	t.cur = save
 }
@@ -926,7 +937,7 @@ func (t *fnTrans) spawnHook(in ssa.Instruction, fnv ssa.Value, cc *ssa.CallCommo
 		name = cc.Method.Name()
 	}
 	if name != "" {
-		tag := t.c.declare("spawn:"+name, "Int")
+		tag := nameTag("spawn:"+name)
 		a := "0"
 		if cc != nil && len(cc.Args) > 0 && t.sortOf(cc.Args[0].Type()) == "Int" {
 			a = t.val(cc.Args[0])
